@@ -128,6 +128,8 @@ func c09Body(script []string, base, max time.Duration, stop c09Stop, outNet **en
 		stopped := int64(-1)    // Disconnect returned / Connect's context cancelled
 		stopCalled := int64(-1) // Disconnect / cancel was called
 		dialAfterStop := false
+		discCalled, discReturned := int64(-1), int64(-1) // cancel+disconnect: when the final Disconnect was called / returned
+		dialAfterDisc := false
 		twoOpen := ""
 		dialer := mqtt.DialerFunc(func(ctx vctx.Context) (*mqtt.BaseClient, error) {
 			vrt.Yield("dial")
@@ -140,6 +142,9 @@ func c09Body(script []string, base, max time.Duration, stop c09Stop, outNet **en
 			if stopped >= 0 && vrt.Now() >= stopped || stopCalled >= 0 && vrt.Now() > stopCalled {
 				// after the stop took effect, or at a strictly later virtual time than the stop call
 				dialAfterStop = true
+			}
+			if discReturned >= 0 && vrt.Now() >= discReturned || discCalled >= 0 && vrt.Now() > discCalled {
+				dialAfterDisc = true
 			}
 			for _, p := range atts[:len(atts)-1] {
 				if p.conn != nil && !p.conn.Closed() {
@@ -243,8 +248,10 @@ func c09Body(script []string, base, max time.Duration, stop c09Stop, outNet **en
 					if stop.kind == "cancel+disconnect" {
 						// the application gives up and tears the client down
 						vrt.Await("Connect returned", func() bool { return connRet })
+						discCalled = vrt.Now()
 						rc.Disconnect(vctx.Background())
 						discRet = true
+						discReturned = vrt.Now()
 					}
 				}
 				stopped = vrt.Now()
@@ -257,6 +264,12 @@ func c09Body(script []string, base, max time.Duration, stop c09Stop, outNet **en
 				as = append(as, fmt.Sprintf("#%d %s dial@%v end@%v established=%v", i, a.outcome, time.Duration(a.dialAt), time.Duration(a.endAt), a.ok))
 			}
 			return fmt.Sprintf("script %v base %v max %v stop %s@%v (took effect at %v); Connect returned=%v err=%v\n attempts:\n  %s", script, base, max, stop.kind, stop.at, time.Duration(stopped), connRet, connErr, strings.Join(as, "\n  "))
+		}
+		if (stop.kind == "cancel" || stop.kind == "cancel+disconnect") && connRet && connErr == nil {
+			// Connect reported success: the first connection was established in spite of the racing
+			// cancellation, so the cancellation did not come "before the first connection succeeded"
+			// and the client rightly goes on managing the connection
+			cancelIrrelevant = true
 		}
 		// back-off
 		lastOK := -1
@@ -325,6 +338,13 @@ func c09Body(script []string, base, max time.Duration, stop c09Stop, outNet **en
 				vrt.Failf("c09/disconnect-blocked:in-handler", "Disconnect called from inside the message handler has not returned\n%s", desc())
 			} else if discErr != nil {
 				vrt.Failf("c09/disconnect-blocked:in-handler", "Disconnect called from inside the message handler returned %v (it only came back on its 5 s deadline)\n%s", discErr, desc())
+			}
+		}
+		if cancelIrrelevant && stop.kind == "cancel+disconnect" {
+			// only the Disconnect stops the client: judge the dials against it
+			dialAfterStop = dialAfterDisc
+			if dialAfterStop {
+				vrt.Failf("c09/dial-after-stop:"+stop.kind, "a dial started after Disconnect had taken effect\n%s", desc())
 			}
 		}
 		if dialAfterStop && !cancelIrrelevant {
